@@ -177,7 +177,8 @@ func (dist *TDistribution) GetParameters() Vector {
   p  = p.AppendScalar(dist.Nu)
   p  = p.AppendVector(dist.Mu)
   p  = p.AppendVector(dist.Sigma.AsVector())
-  return p
+  // the result must not share elements with the distribution
+  return p.CloneVector()
 }
 
 func (dist *TDistribution) SetParameters(parameters Vector) error {
